@@ -117,6 +117,21 @@ class ImplicitFuncComp(ImplicitComponent):
                 raise RuntimeError(f"{self.msginfo}: failed jit compile of solve_nonlinear "
                                    f"function: {err}")
 
+    @property
+    def _mode(self):
+        """
+        Return the direction used to compute the jax partials.
+
+        The partial coloring is computed for the best partial derivative direction, whatever
+        the mode of the problem is, so the jacobian has to be computed in that direction.
+
+        Returns
+        -------
+        str
+            The direction, 'fwd' or 'rev'.
+        """
+        return self.best_partial_deriv_direction()
+
     def setup(self):
         """
         Define our inputs and outputs.
